@@ -387,6 +387,16 @@ func judgeRetry(r *vrun.Run, c retryCase, log []inv, err error, panicked any, ti
 		return
 	}
 	isLast := last != nil && last.err != nil && errors.Is(err, last.err)
+	if isLast {
+		// "the last error", not an aggregate that also is an earlier attempt's error (every scripted
+		// error is a distinct value)
+		for _, e := range log[:len(log)-1] {
+			if e.err != nil && errors.Is(err, e.err) {
+				r.Violation(sig("several-failed-attempts", "aggregate-instead-of-last-error"), fmt.Sprintf("%s returned an error that also is the error of invocation #%d, not only the last one (script %q)", fam, e.Idx+1, c.Script), wit(nil))
+				return
+			}
+		}
+	}
 	isKind := commonerrors.Any(err, wantKind)
 	_ = rawCtx
 	switch {
